@@ -19,7 +19,7 @@ CHECKS["C16"] = {
     "families": ["meta"],
     "trusted_base": ["the bit-level model of encodeBlock/decodeBlock/Writer.Write buffering/ReverseSearch is hand-written; the 64-bit buffer and staging of prefix.Reader/Writer underneath are not represented here (C20 covers them)"],
     "assumptions": ["bit I/O of internal/prefix delivers the bit list it was given (C20)"],
-    "level_text": "full except the converse direction: Lean theorems C16_block_roundtrip and C16_stream_roundtrip (decode (encode p m) = p, m, block count, every byte consumed, for every payload length and mode; split-independent because the model's Write is a byte fold), C16_write_total, C16_fit22 (<= 22 bytes => one block), C16_block_aligned, C16_block_size (12..64 bytes), C16_magic_only_at_start + C16_reverseSearch_spec + C16_reverseSearch_finds_last_block (signature at block starts only, so the backward search finds the last block), C16_silent_in_deflate (to the RFC 1951 specification every meta block is a complete empty dynamic block, final iff FinalStream). Not proved: the converse (whatever the meta decoder accepts is such a block sequence) - decided by the oracle sweep on mutated inputs only.",
+    "level_text": "full on the model, both directions: Lean theorems C16_block_roundtrip and C16_stream_roundtrip (decode (encode p m) = p, m, block count, every byte consumed, for every payload length and mode; split-independent because the model's Write is a byte fold), C16_write_total, C16_fit22 (<= 22 bytes => one block), C16_block_aligned, C16_block_size (12..64 bytes), C16_magic_only_at_start + C16_reverseSearch_spec + C16_reverseSearch_finds_last_block (signature at block starts only, so the backward search finds the last block), C16_silent_in_deflate (to the RFC 1951 specification every meta block is a complete empty dynamic block, final iff FinalStream). Converse: C16_accepted_is_silent_deflate and C16_accepted_stream_is_silent_deflate - whatever the meta decoder model accepts, including encodings the encoder never writes (larger code length/HCLEN, other run splittings; a non-canonical accepted witness is exhibited and replayed on the Go code), is read by the RFC 1951 specification as exactly that many complete empty dynamic blocks, final iff FinalStream.",
     "level_note": "Trusted: Lean kernel (propext, Classical.choice, Quot.sound); hand-written model tied to /repo by byte-exact correspondence of encoder output, decoder verdicts and ReverseSearch on ~46k cases per quick run (all payloads <= 1 byte x 3 modes, footers, random payloads, mutations); compress/flate is the reference for the DEFLATE-silence oracle.",
     "explanation": "round-trip theorems for the meta codec model; remaining clauses checked on the implementation by the oracle",
 }
@@ -145,10 +145,10 @@ CHECKS["C12"] = {
     "explanation": "durability and cut theorems + cut sweep",
 }
 CHECKS["C14"] = {
-    "families": ["life", "win", "cc"],
-    "trusted_base": ["Reset field lists are regenerated from /repo (go/ast) and pinned by theorem", "behavioural equality after Reset is a sweep (dirty history, Reset, compare with a fresh instance), not a theorem"],
+    "families": ["life", "win", "cc", "fl"],
+    "trusted_base": ["Reset field lists are regenerated from /repo (go/ast) and pinned by theorem", "behavioural equality after Reset is a theorem for the flate.Reader model only (tied to /repo by the flrr correspondence lines: real Reader, earlier stream partly read, Reset, schedule of Reads, against the model doing the same); for the other types it is a sweep (dirty history, Reset, compare with a fresh instance)"],
     "assumptions": [],
-    "level_text": "partial: C14_window_fresh (the reused LZ77 window - the one carried buffer whose contents could matter - does not influence the next stream, for every previous capacity), C14_bitreader_fresh, C14_bzip2_reader_reset + Facts.reset_carried (every Reset of /repo carries allocation-bearing and configuration fields only; regenerated on every run - D4 was bzip2.Reader carrying its half-read block). Whole-instance indistinguishability for the 8 types: sweep (read to end / abandoned / corrupt / closed / failed sink, then Reset, against a fresh instance).",
+    "level_text": "partial: full for flate.Reader on the Go-shaped model - C14_flate_reset_fresh / C14_flate_reset_eq_new: from ANY earlier state of the reader (stream finished, abandoned with pending output or a copy in progress, failed; any window capacity and any stale window contents, which Reset keeps) Reset onto a new byte string gives, for every Read schedule, exactly the RFC 1951 specification's output and error for that string alone, i.e. what a new reader gives. Further: C14_window_fresh (the reused LZ77 window - the one carried buffer whose contents could matter - does not influence the next stream, for every previous capacity), C14_bitreader_fresh, C14_bzip2_reader_reset + Facts.reset_carried (every Reset of /repo carries allocation-bearing and configuration fields only; regenerated on every run - D4 was bzip2.Reader carrying its half-read block). Whole-instance indistinguishability for the other 7 types: sweep (read to end / abandoned / corrupt / closed / failed sink, then Reset, against a fresh instance).",
     "level_note": "Trusted: Lean kernel; extractor; sweep = sampling.",
     "explanation": "regenerated Reset facts + window freshness theorem + dirty-history sweep",
 }
